@@ -3,6 +3,7 @@ import itertools
 import re
 
 from mirlib import flow, ir, symx
+from mirlib.facts import REPO as _REPO
 from mirlib.symx import INF, mk_adt, vbool, vint, show
 
 TERM = "adf_bdd::datatypes::bdd::Term"
@@ -238,3 +239,28 @@ def position_name_pats(lib, idx_pat):
     if scheme == "label":
         return [C("expect", C("VarContainer::name", PF(ANY, "ordering"), ADT("Var", _0=idx_pat)), ANY)], scheme, info
     return [], scheme, info
+
+
+def source_literal(loc):
+    """first string literal inside the source range loc = [file, l1, c1, l2, c2] (relative to the repository root)"""
+    import os
+    import re
+    path = os.path.join(_REPO, loc[0])
+    try:
+        lines = open(path).read().split("\n")
+    except OSError:
+        return None
+    l1, c1, l2, c2 = loc[1], loc[2], loc[3], loc[4]
+    if l1 == l2:
+        text = lines[l1 - 1][c1 - 1:c2 - 1]
+    else:
+        text = "\n".join([lines[l1 - 1][c1 - 1:]] + lines[l1:l2 - 1] + [lines[l2 - 1][:c2 - 1]])
+    m = re.search(r'"((?:[^"\\\\]|\\\\.)*)"', text)
+    return m.group(1) if m else None
+
+
+def strip_placeholders(lit):
+    import re
+    return re.sub(r"\{[^{}]*\}", "", lit.replace("{{", "").replace("}}", ""))
+
+
